@@ -1250,7 +1250,14 @@ _UNQ = 'abcdefghijklmnopqrstuvwxyzABCDEFGHIJKLMNOPQRSTUVWXYZ'
 def _c22_item(r, want=None):
     """One DATA item: [raw text, string reading | None, numeric reading | None]."""
     k = want or r.choice(['int', 'int', 'dec', 'exp', 'dbl', 'suffix', 'radix', 'quoted', 'quoted',
-                          'unquoted', 'unquoted', 'empty', 'padded', 'partial', 'bigint'])
+                          'unquoted', 'unquoted', 'empty', 'padded', 'partial', 'bigint', 'signed'])
+    if k == 'signed':
+        # explicit plus sign (and other legal sign / point spellings) on a numeric item
+        raw, v = r.choice([('+42', 42), ('+.5', 0.5), ('+1E2', 100), ('+2.5E+1', 25), ('5.', 5), ('+7%', 7), ('+0', 0),
+                           ('+3#', 3), ('-.5', -0.5), ('+1.5D1', 15), (' +8 ', 8), ('+32767', 32767), ('-0', 0), ('+1D-1', 0.1)])
+        if raw == '+1D-1':
+            raw, v = '+125D-3', 0.125
+        return [raw, raw.strip(), v]
     if k == 'partial':
         # starts like a number: still not a numeric item
         raw = r.choice(['12abc', '7x', '3.5z', '-4q', '1E2k'])
@@ -1355,6 +1362,8 @@ def gen_c22(rng):
             data[i] = items
             if any(it[0].strip() == '' for it in items):
                 feats['empty_item'] = feats.get('empty_item', 0) + 1
+            if any(it[2] is not None and it[0].strip()[:1] == '+' for it in items):
+                feats['numeric_item_with_plus_sign'] = feats.get('numeric_item_with_plus_sign', 0) + 1
     # a line may carry two DATA statements
     order = []      # (line index, item) in program order
     second = {}
